@@ -90,6 +90,8 @@ type Op struct {
 	SidTs      uint64 `json:"sidTs,omitempty"`      // creation timestamp of the sid identity (fixed by the generator so that replays agree)
 	SleepMs    int    `json:"sleepMs,omitempty"`    // wall-clock delay before executing (replica offset)
 	Eth        bool   `json:"eth,omitempty"`
+	Fish       []int  `json:"fish,omitempty"`       // govfishmen: the new fishmen list (account index+1)
+	AcctSuffix string `json:"acctSuffix,omitempty"` // binding: appended to the account id (an alias of the same chain account)
 	EthMixed   bool   `json:"ethMixed,omitempty"`   // eip155 account id in EIP-55 checksum spelling instead of lower case
 	DocSid     int    `json:"docSid,omitempty"`     // sid-signed request: sign with the key of *this* identity and name its document in the kid (0 = the owner identity itself)
 	Inner      *Op    `json:"inner,omitempty"`      // sim: the transaction executed without being committed
@@ -233,7 +235,7 @@ func (w *World) runTx(f func(ctx sdk.Context) (M, error)) Result {
 // IsTxOp: operations that are transactions (candidates for a non-consensus execution).
 func IsTxOp(k string) bool {
 	switch k {
-	case "advance", "begin", "end", "genesis", "restart", "sim":
+	case "advance", "begin", "end", "genesis", "restart", "sim", "govfishmen", "slash":
 		return false
 	}
 	return true
@@ -602,6 +604,7 @@ func (w *World) Exec(op *Op) (Result, M) {
 				accId = "eip155:1:" + ethcrypto.PubkeyToAddress(ethKey.PublicKey).Hex()
 			}
 		}
+		accId += op.AcctSuffix
 		now := uint64(w.Clock().Unix())
 		proofTs := ts
 		message := fmt.Sprintf("I accept binding my account to %s at %d", did, proofTs)
@@ -965,6 +968,23 @@ func (w *World) Exec(op *Op) (Result, M) {
 				_, err = saoSrv.RecoverFaults(sdk.WrapSDKContext(ctx), &saotypes.MsgRecoverFaults{Creator: creator, Provider: w.acct1(op.Provider), Faults: fs})
 			}
 			return nil, err
+		}), out
+	case "govfishmen":
+		// a governance parameter change of the fishmen list: written to the parameter store the way the proposal handler does
+		// (Subspace.Update), not through the node keeper
+		delete(out, "creator")
+		addrs := []string{}
+		for _, i := range op.Fish {
+			addrs = append(addrs, w.acct1(i))
+		}
+		out["fishmen"] = w.addrs(addrs)
+		return w.runTx(func(ctx sdk.Context) (M, error) {
+			sub, found := app.ParamsKeeper.GetSubspace(nodetypes.ModuleName)
+			if !found {
+				return nil, fmt.Errorf("no parameter subspace for the node module")
+			}
+			v, _ := json.Marshal(strings.Join(addrs, ","))
+			return nil, sub.Update(ctx, nodetypes.KeyFishmenInfo, v)
 		}), out
 	case "slash":
 		// x/staking slashes a validator for an infraction at the current height: its tokens shrink, the shares of its
